@@ -608,8 +608,26 @@ func runLockWalkCase(idx int, cse *csCase, workroot string) ([]string, []Monitor
 	c.fire(nd) // NewHeight -> round 0
 	drainOwn()
 	rounds := 3 + r.Intn(4)
+	crashes := 0
 	startH := nd.cs.GetRoundState().Height
 	for step := 0; step < rounds*6 && nd.panicked == "" && nd.cs.GetRoundState().Height == startH; step++ {
+		// the node dies and comes back (its log intact, sometimes rotated): replay has to bring back the
+		// round, the votes and above all the lock
+		if crashes < 2 && r.Chance(1, 9) {
+			crashes++
+			c.dist["crash"]++
+			if r.Chance(1, 4) {
+				c.dist["wal-rotated-before-crash"]++
+				catchPanic(func() { nd.cs.VerifRotateWAL() })
+			}
+			c.crash(nd, false)
+			c.restart(nd)
+			nd = c.nodes[me]
+			if nd.panicked != "" || nd.down {
+				break
+			}
+			drainOwn()
+		}
 		rs := nd.cs.GetRoundState()
 		// something from the past turns up
 		if len(late) > 0 && r.Chance(1, 3) {
